@@ -4,10 +4,11 @@
     two functions, `ls` (`os.listdir`: `none` = `FileNotFoundError`) and `ex` (`os.path.exists`).
 
     `find` is literal: `paths = os.path.abspath(start).split(os.sep)`; for `x = len(paths) … 0` the
-    candidate directory is `os.sep.join(paths[0:x])`; the joins of `[""]` and of `[]` are the empty
-    string, `os.listdir("")` raises `FileNotFoundError`, which `find` turns into `CollectionNotFound`.
-    Consequently the walk never ends normally (`return None` is unreachable) and the root directory
-    is only ever searched when it is the start directory itself (`"/".split("/") = ["", ""]`). -/
+    candidate directory is `os.sep.join(paths[0:x]) or (os.sep if x else "")`: the one-component slice
+    `[""]` denotes the root directory `/` and is searched (repair of DESIGN §4 #25 "root"), the empty
+    slice is the empty string, `os.listdir("")` raises `FileNotFoundError`, which `find` turns into
+    `CollectionNotFound`.  Consequently the walk never ends normally (`return None` is unreachable).
+    When the start directory is `/` itself (`"/".split("/") = ["", ""]`) the root is listed twice. -/
 namespace Inv.Loader
 
 abbrev Name := List Char
@@ -34,8 +35,16 @@ def absPath (cwd : Path) (isAbs : Bool) (raw : List Name) : Path :=
 /-- `os.path.abspath(start).split("/")` for a normal absolute path -/
 def splitParts (p : Path) : List Name := if p = [] then [[], []] else [] :: p
 
-/-- `"/".join(parts)` read back as a directory: `none` is the empty string -/
+/-- `"/".join(parts) or ("/" if parts else "")` read back as a directory: `none` is the empty string -/
 def joinDir : List Name → Option Path
+  | [] => none
+  | [[]] => some []
+  | [[], []] => some []
+  | [] :: rest => some rest
+  | _ :: _ => none
+
+/-- the rule BEFORE the repair (`"/".join(parts)` alone): the slice `[""]` is the empty string too -/
+def joinDirPinned : List Name → Option Path
   | [] => none
   | [[]] => none
   | [[], []] => some []
@@ -76,6 +85,10 @@ def findFrom (fs : FS) (name : Name) : List (Option Path) → FindR
     a non-empty relative join is resolved by the OS against the working directory -/
 def joinRel (cwd : Path) (parts : List Name) : Option Path :=
   if parts.all (fun c => c = []) then none else some (parts.foldl normStep cwd)
+
+/-- `find` BEFORE the root repair: the root directory was only listed when it was the start itself -/
+def findPinnedRoot (fs : FS) (cwd : Path) (isAbs : Bool) (raw : List Name) (name : Name) : FindR :=
+  findFrom fs name ((slicesDown (splitParts (absPath cwd isAbs raw)).reverse).map joinDirPinned)
 
 def findPinnedRel (fs : FS) (cwd : Path) (raw : List Name) (name : Name) : FindR :=
   findFrom fs name ((slicesDown raw.reverse).map (joinRel cwd))
